@@ -8,6 +8,7 @@ import (
 	"regexp"
 	"sort"
 	"strings"
+	"time"
 
 	"github.com/pentops/j5/lib/verifshim/compile"
 	"google.golang.org/protobuf/proto"
@@ -61,17 +62,38 @@ func observeFiles(fs []protoreflect.FileDescriptor) ([]fileObs, string) {
 	return out, ""
 }
 
+// safeCompilePkg compiles under recover() and a deadline: a call that does not return stops the run with the
+// package as the failing input (abortOnHang; its goroutine cannot be killed).
 func safeCompilePkg(s *compile.Set, pkg string) (fs []protoreflect.FileDescriptor, errText string) {
-	defer func() {
-		if r := recover(); r != nil {
-			errText = fmt.Sprintf("panic: %v", r)
-		}
-	}()
-	fs, err := s.CompilePackage(context.Background(), pkg)
-	if err != nil {
-		return nil, err.Error()
+	type res struct {
+		fs  []protoreflect.FileDescriptor
+		err string
 	}
-	return fs, ""
+	ch := make(chan res, 1)
+	go func() {
+		var r res
+		func() {
+			defer func() {
+				if p := recover(); p != nil {
+					r.err = fmt.Sprintf("panic: %v", p)
+				}
+			}()
+			out, err := s.CompilePackage(context.Background(), pkg)
+			if err != nil {
+				r.err = err.Error()
+				return
+			}
+			r.fs = out
+		}()
+		ch <- r
+	}()
+	select {
+	case r := <-ch:
+		return r.fs, r.err
+	case <-time.After(30 * time.Second):
+		abortOnHang("compile", map[string]any{"package": pkg, "call": "CompilePackage (C14 configuration run)"})
+		return nil, "timeout"
+	}
 }
 
 // runConfig compiles every package of the bundle under one configuration of the order parameters.
